@@ -3,6 +3,8 @@ import NetVerif.Model.QuicTransportParams
 import NetVerif.Model.QuicPacket
 import NetVerif.Gen.C28
 import NetVerif.Proofs.Lemmas.QuicCodec
+import NetVerif.Proofs.Lemmas.QuicTPRT
+import NetVerif.Proofs.Lemmas.QuicPacketRT
 /-!
 C28 — QUIC frame, packet and transport-parameter codecs round-trip safely.
 -/
@@ -922,47 +924,114 @@ theorem unmarshal_int_param (id v : Nat) (bs : List Nat) (hid : id ∈ intParamI
 /-- Defaults: nothing is transmitted, and nothing received means the RFC defaults. -/
 theorem marshal_default : marshal defaultParams = some [] ∧ unmarshal [] = some defaultParams := by decide
 
-/-- The full round-trip statement for transport parameters (every field at once).  It is tied
-by the differential run and stated on the implementation by the Go oracle; the theorems above
-prove it parameter by parameter for the integer parameters. -/
-def TPRoundTripStatement : Prop :=
-  ∀ (p : TParams) (bs : List Nat), marshal p = some bs →
-    p.maxIdleTimeout % msNs = 0 → p.maxIdleTimeout / msNs ≤ 4294967296 →
-    (∀ t, p.statelessResetToken = some t → t.length = 16) →
-    1200 ≤ p.maxUDPPayloadSize → p.initialMaxStreamsBidi ≤ maxStreamsLimit →
-    p.initialMaxStreamsUni ≤ maxStreamsLimit → p.ackDelayExponent ≤ 20 →
-    p.maxAckDelay % msNs = 0 → p.maxAckDelay / msNs < 16384 → 2 ≤ p.activeConnIDLimit →
-    (match p.preferredAddrConnID with
-     | some _ => p.preferredAddrV4.1.length = 4 ∧ p.preferredAddrV6.1.length = 16 ∧
-                 p.preferredAddrV4.2 < 65536 ∧ p.preferredAddrV6.2 < 65536 ∧
-                 (∃ t, p.preferredAddrResetToken = some t ∧ t.length = 16)
-     | none => p.preferredAddrV4 = ([], 0) ∧ p.preferredAddrV6 = ([], 0) ∧ p.preferredAddrResetToken = none) →
-    unmarshal bs = some p
+/-- Boolean form of the validity predicate (what the Go oracle's `c28TPValid` computes). -/
+def tpValidB (p : TParams) : Bool :=
+  decide (p.maxIdleTimeout % msNs = 0) && decide (p.maxIdleTimeout / msNs ≤ 4294967296) &&
+  (match p.statelessResetToken with | some t => t.length == 16 | none => true) &&
+  decide (1200 ≤ p.maxUDPPayloadSize) && decide (p.initialMaxStreamsBidi ≤ maxStreamsLimit) &&
+  decide (p.initialMaxStreamsUni ≤ maxStreamsLimit) && decide (p.ackDelayExponent ≤ 20) &&
+  decide (p.maxAckDelay % msNs = 0) && decide (p.maxAckDelay / msNs < 16384) && decide (2 ≤ p.activeConnIDLimit) &&
+  (match p.preferredAddrConnID with
+   | some _ => p.preferredAddrV4.1.length == 4 && p.preferredAddrV6.1.length == 16 &&
+       decide (p.preferredAddrV4.2 < 65536) && decide (p.preferredAddrV6.2 < 65536) &&
+       (match p.preferredAddrResetToken with | some t => t.length == 16 | none => false)
+   | none => p.preferredAddrV4 == ([], 0) && p.preferredAddrV6 == ([], 0) && p.preferredAddrResetToken == none)
 
-/-! ### Packets (grade S: model + byte-exact tie with a toy AEAD + real-AEAD oracle) -/
+theorem tpValidB_sound (p : TParams) (h : tpValidB p = true) : Lemmas.QuicTPRT.TPValid p := by
+  unfold tpValidB at h
+  simp only [Bool.and_eq_true, decide_eq_true_eq] at h
+  obtain ⟨⟨⟨⟨⟨⟨⟨⟨⟨⟨h1, h2⟩, h3⟩, h4⟩, h5⟩, h6⟩, h7⟩, h8⟩, h9⟩, h10⟩, h11⟩ := h
+  refine ⟨h1, h2, ?_, h4, h5, h6, h7, h8, h9, h10, ?_, ?_⟩
+  · intro t ht; simp [ht] at h3; exact h3
+  · intro c hc
+    simp only [hc] at h11
+    simp only [Bool.and_eq_true, decide_eq_true_eq, beq_iff_eq] at h11
+    obtain ⟨⟨⟨⟨a, b⟩, c'⟩, d⟩, e⟩ := h11
+    refine ⟨a, b, c', d, ?_⟩
+    cases ht : p.preferredAddrResetToken with
+    | none => simp [ht] at e
+    | some t => simp [ht] at e; exact ⟨t, rfl, e⟩
+  · intro hc
+    simp only [hc] at h11
+    simp only [Bool.and_eq_true, beq_iff_eq] at h11
+    exact ⟨h11.1.1, h11.1.2, h11.2⟩
+
+/-- **Transport parameters round trip (all fields at once).** For every parameter set that
+passes the decidable validity check, `marshalTransportParameters` followed by
+`unmarshalTransportParams` gives back exactly the same parameters. -/
+theorem tp_roundtrip (p : TParams) (bs : List Nat) (hv : tpValidB p = true) (h : marshal p = some bs) :
+    unmarshal bs = some p :=
+  Lemmas.QuicTPRT.tp_roundtrip p bs (tpValidB_sound p hv) h
+
+/-- Non-vacuity: a parameter set using every kind of field is valid, marshals, and comes back. -/
+def tpExample : TParams :=
+  { originalDstConnID := some [1, 2, 3], maxIdleTimeout := 30000 * msNs, statelessResetToken := some (List.replicate 16 7),
+    maxUDPPayloadSize := 1472, initialMaxData := 1048576, initialMaxStreamDataBidiLocal := 65536,
+    initialMaxStreamDataBidiRemote := 65537, initialMaxStreamDataUni := 4611686018427387903,
+    initialMaxStreamsBidi := 1152921504606846976, initialMaxStreamsUni := 100, ackDelayExponent := 20,
+    maxAckDelay := 16383 * msNs, disableActiveMigration := true, preferredAddrConnID := some [9, 8],
+    preferredAddrV4 := ([10, 0, 0, 1], 443), preferredAddrV6 := (List.replicate 16 1, 8443),
+    preferredAddrResetToken := some (List.replicate 16 3), activeConnIDLimit := 8,
+    initialSrcConnID := some [], retrySrcConnID := none }
+
+example : tpValidB tpExample = true ∧ (marshal tpExample).isSome = true ∧
+    (marshal tpExample).bind unmarshal = some tpExample := by decide +kernel
+
+/-! ### Packets: protected long- and short-header packets round-trip, AEAD and header protection
+as abstract parameters under explicit hypotheses -/
 
 open NetVerif.Model.QuicPacket in
-/-- The packet round-trip statement with the AEAD and header protection abstract: under
-`open (seal x) = x`, a 16-byte tag, a 5-byte mask and a receive window in which the truncated
-packet number decodes, a written long-header packet parses back to its fields.  NOT proved in
-Lean (bit-level XOR/AND reasoning on the first byte is missing); it is tied by the differential
-run with the toy instance below and stated on the implementation by the Go oracle with the
-real cipher suites. -/
-def LongPacketRoundTripStatement : Prop :=
-  ∀ (c : Crypto) (lim ptype version : Nat) (dcid scid token : List Nat) (pnum : Nat) (maxAcked recvMax : Int)
-    (payload pkt : List Nat),
-    (∀ pn hdr pay, c.aeadOpen pn hdr (c.aeadSeal pn hdr pay) = some pay) →
-    (∀ pn hdr pay, (c.aeadSeal pn hdr pay).length = pay.length + 16) →
-    (∀ s, (c.hpMask s).length = 5 ∧ ∀ b ∈ c.hpMask s, b < 256) →
-    (∀ b ∈ dcid ++ scid ++ token ++ payload, b < 256) →
-    1 ≤ ptype → ptype ≤ 3 → 0 < version → version < 4294967296 → dcid.length ≤ 20 → scid.length ≤ 20 →
-    pnum < 4611686018427387904 → maxAcked < pnum →
-    Model.PacketNumber.decodePN recvMax ((pnum : Int) % 256 ^ pnLen pnum maxAcked) (pnLen pnum maxAcked) = pnum →
-    writeLong c lim ptype version dcid scid token pnum maxAcked payload = PW.packet pkt →
-    ∃ pay, parseLong c (pkt ++ [64, 1, 2]) recvMax =
-      some ({ ptype := ptype, version := version, num := pnum, dcid := dcid, scid := scid,
-              extra := (if ptype = 1 then token else []), payload := pay }, pkt.length) ∧
-      pay.take payload.length = payload.take pay.length
+/-- **Long-header packet round trip** (Initial, 0-RTT, Handshake). For ANY `Crypto` such that
+`open (seal x) = x`, the AEAD adds 16 bytes and the mask of a 16-byte sample has 5 bytes:
+a packet written with a non-zero 32-bit version, connection IDs of at most 20 bytes and a packet
+number that decodes in the receiver's window parses back — whatever follows it in the datagram —
+to the same type, version, packet number, connection IDs and token, with the payload truncated to
+the datagram room and zero-padded to the sample size (`Padded`), reporting exactly its length. -/
+theorem long_packet_roundtrip (c : Crypto) (lim ptype version : Nat) (dcid scid token : List Nat) (pnum : Nat)
+    (maxAcked recvMax : Int) (payload pkt trailing : List Nat)
+    (hopen : ∀ pn hdr pay, c.aeadOpen pn hdr (c.aeadSeal pn hdr pay) = some pay)
+    (hlen : ∀ pn hdr pay, (c.aeadSeal pn hdr pay).length = pay.length + 16)
+    (hmask : ∀ s, s.length = sampleSize → (c.hpMask s).length = 5)
+    (hpt : 1 ≤ ptype ∧ ptype ≤ 3) (hv0 : 0 < version) (hv : version < 4294967296)
+    (hdl : dcid.length ≤ 20) (hsl : scid.length ≤ 20)
+    (hdec : Model.PacketNumber.decodePN recvMax ((pnum % 256 ^ pnLen pnum maxAcked : Nat)) (pnLen pnum maxAcked) = (pnum : Int))
+    (h : writeLong c lim ptype version dcid scid token pnum maxAcked payload = PW.packet pkt) :
+    ∃ out, Lemmas.QuicPacketRT.Padded payload out ∧ pkt.length ≤ lim ∧
+      parseLong c (pkt ++ trailing) recvMax =
+        some ({ ptype := ptype, version := version, num := pnum, dcid := dcid, scid := scid,
+                extra := (if ptype = 1 then token else []), payload := out }, pkt.length) :=
+  Lemmas.QuicPacketRT.long_roundtrip c lim ptype version dcid scid token pnum maxAcked recvMax payload pkt trailing
+    hopen hlen hmask hpt hv0 hv hdl hsl hdec h
+
+open NetVerif.Model.QuicPacket in
+/-- **1-RTT (short-header) packet round trip**, same hypotheses; the key phase is 0 or 4 and the
+receiver is not in the middle of a key update. -/
+theorem short_packet_roundtrip (c cNext : Crypto) (lim phase : Nat) (dcid : List Nat) (pnum : Nat)
+    (maxAcked recvMax : Int) (payload pkt : List Nat)
+    (hopen : ∀ pn hdr pay, c.aeadOpen pn hdr (c.aeadSeal pn hdr pay) = some pay)
+    (hlen : ∀ pn hdr pay, (c.aeadSeal pn hdr pay).length = pay.length + 16)
+    (hmask : ∀ s, s.length = sampleSize → (c.hpMask s).length = 5)
+    (hph : phase = 0 ∨ phase = 4)
+    (hdec : Model.PacketNumber.decodePN recvMax ((pnum % 256 ^ pnLen pnum maxAcked : Nat)) (pnLen pnum maxAcked) = (pnum : Int))
+    (h : writeShort c lim phase dcid pnum maxAcked payload = PW.packet pkt) :
+    ∃ out, Lemmas.QuicPacketRT.Padded payload out ∧ pkt.length ≤ lim ∧
+      parseShort c cNext phase pkt dcid.length recvMax = some (pnum, out) :=
+  Lemmas.QuicPacketRT.short_roundtrip c cNext lim phase dcid pnum maxAcked recvMax payload pkt
+    hopen hlen hmask hph hdec h
+
+open NetVerif.Model.QuicPacket in
+/-- Non-vacuity: the toy instance (the one the Go writer/parser are run with in the D-tie)
+satisfies all three cryptographic hypotheses, so the theorems apply to it. -/
+theorem toy_satisfies_hypotheses (k : Nat) :
+    (∀ pn hdr pay, (toy k).aeadOpen pn hdr ((toy k).aeadSeal pn hdr pay) = some pay) ∧
+    (∀ pn hdr pay, ((toy k).aeadSeal pn hdr pay).length = pay.length + 16) ∧
+    (∀ s, s.length = sampleSize → ((toy k).hpMask s).length = 5) :=
+  ⟨Lemmas.QuicPacketRT.toy_open k, Lemmas.QuicPacketRT.toy_len k, Lemmas.QuicPacketRT.toy_mask k⟩
+
+/-- … and the packet-number hypothesis is satisfiable: 300 sent after 100 was acked (2-byte
+encoding) decodes for a receiver that has seen up to 299. -/
+example : Model.PacketNumber.decodePN 299 ((300 % 256 ^ Model.QuicPacket.pnLen 300 100 : Nat))
+    (Model.QuicPacket.pnLen 300 100) = (300 : Int) := by decide
 
 open NetVerif.Model.QuicPacket in
 /-- Non-vacuity / sanity, checked by the kernel on concrete packets with the toy instance:
